@@ -347,7 +347,95 @@ def _literal_items(it):
             return [(e,) for e in it.elts]
         if all(isinstance(e, (ast.Tuple, ast.List)) and len(e.elts) == len(it.elts[0].elts) for e in it.elts):
             return [tuple(e.elts) for e in it.elts]
+        # (x_idx, y_idx): plain values (names, attribute reads, constants) - the unroller checks that the body does not rebind them
+        def plain1(e):
+            return isinstance(e, (ast.Constant, ast.Name)) or (isinstance(e, ast.Attribute) and plain1(e.value))
+        if all(plain1(e) for e in it.elts):
+            return [(e,) for e in it.elts]
     return None
+
+
+def _in_order_names(node):
+    """Name nodes of a statement in evaluation order (value before targets for an assignment)"""
+    if isinstance(node, ast.Assign):
+        out = list(_in_order_names(node.value))
+        for t_ in node.targets:
+            out += list(_in_order_names(t_))
+        return out
+    if isinstance(node, ast.AugAssign):
+        return list(_in_order_names(node.target)) + list(_in_order_names(node.value))
+    if isinstance(node, ast.Name):
+        return [node]
+    out = []
+    for ch in ast.iter_child_nodes(node):
+        out += _in_order_names(ch)
+    return out
+
+
+def _read_elsewhere(tree, holder, loop, name):
+    """is `name` mentioned in the function that encloses `loop`, outside the loop?"""
+    fn = None
+    for f_ in ast.walk(tree):
+        if isinstance(f_, (ast.FunctionDef, ast.AsyncFunctionDef)) and any(x is loop for x in ast.walk(f_)):
+            fn = f_     # the innermost one is visited last among nested definitions containing the loop
+    scope = fn if fn is not None else tree
+    inside = {id(x) for x in ast.walk(loop)}
+    return any(isinstance(x, ast.Name) and x.id == name and id(x) not in inside for x in ast.walk(scope))
+
+
+def merge_list_appends(tree):
+    """``L = []`` ... ``L.append(a)`` ... ``L.append(b)`` in ONE block, with nothing else touching L in between, is ``L = [a, b]`` placed at the last
+    append - provided no name read by a or b is bound between its append and the last one.  (Makes a list built by an unrolled loop a display.)"""
+    n = 0
+    for holder in ast.walk(tree):
+        for field in ("body", "orelse", "finalbody"):
+            blk = getattr(holder, field, None)
+            if not (isinstance(blk, list) and blk and isinstance(blk[0], ast.stmt)):
+                continue
+            i = 0
+            while i < len(blk):
+                st = blk[i]
+                if not (isinstance(st, ast.Assign) and len(st.targets) == 1 and isinstance(st.targets[0], ast.Name) and isinstance(st.value, ast.List)
+                        and not any(isinstance(e, ast.Starred) for e in st.value.elts)):
+                    i += 1
+                    continue
+                L = st.targets[0].id
+                appends = []
+                j = i + 1
+                while j < len(blk):
+                    s2 = blk[j]
+                    mentions = [x for x in ast.walk(s2) if isinstance(x, ast.Name) and x.id == L]
+                    is_app = isinstance(s2, ast.Expr) and isinstance(s2.value, ast.Call) and isinstance(s2.value.func, ast.Attribute) and s2.value.func.attr == "append" \
+                        and isinstance(s2.value.func.value, ast.Name) and s2.value.func.value.id == L and len(s2.value.args) == 1 and not s2.value.keywords \
+                        and len(mentions) == 1
+                    if is_app:
+                        appends.append(j)
+                    elif mentions or isinstance(s2, (ast.For, ast.While, ast.If, ast.With, ast.Try, ast.FunctionDef, ast.Return, ast.Raise, ast.Break, ast.Continue)):
+                        break
+                    j += 1
+                if not appends:
+                    i += 1
+                    continue
+                last = appends[-1]
+                ok = True
+                for a_ in appends:
+                    read = {x.id for x in ast.walk(blk[a_].value.args[0]) if isinstance(x, ast.Name)}
+                    for k_ in range(a_ + 1, last + 1):
+                        if any(isinstance(x, ast.Name) and x.id in read and not isinstance(x.ctx, ast.Load) for x in ast.walk(blk[k_])):
+                            ok = False
+                if not ok:
+                    i += 1
+                    continue
+                merged = ast.Assign(targets=[ast.Name(id=L, ctx=ast.Store())], value=ast.List(elts=list(st.value.elts) + [blk[a_].value.args[0] for a_ in appends], ctx=ast.Load()))
+                ast.copy_location(merged, blk[last])
+                ast.fix_missing_locations(merged)
+                new_blk = [b_ for k_, b_ in enumerate(blk) if k_ != i and k_ not in appends[:-1] and k_ != last]
+                pos = last - 1 - len(appends[:-1])      # the index of `last` after the removals before it (i and the earlier appends)
+                new_blk.insert(pos, merged)
+                blk[:] = new_blk
+                n += 1
+                i = pos + 1
+    return n
 
 
 def unroll_literal_loops(tree, max_items=8, max_body=12):
@@ -367,12 +455,25 @@ def unroll_literal_loops(tree, max_items=8, max_body=12):
                 names = [tg.id] if isinstance(tg, ast.Name) else [e.id for e in tg.elts] if isinstance(tg, ast.Tuple) and all(isinstance(e, ast.Name) for e in tg.elts) else None
                 if items is None or names is None or not (0 < len(items) <= max_items) or any(len(v) != len(names) for v in items) \
                         or sum(1 for x in st.body for _ in ast.walk(x) if isinstance(_, ast.stmt)) > max_body \
-                        or any(isinstance(x, (ast.Break, ast.Continue, ast.FunctionDef, ast.Lambda, ast.Return, ast.Yield)) for b_ in st.body for x in ast.walk(b_)) \
-                        or any(isinstance(x, ast.Name) and x.id in names and not isinstance(x.ctx, ast.Load) for b_ in st.body for x in ast.walk(b_)):
+                        or any(isinstance(x, (ast.Break, ast.Continue, ast.FunctionDef, ast.Lambda, ast.Yield)) for b_ in st.body for x in ast.walk(b_)) \
+                        or any(isinstance(x, ast.Name) and x.id in names and not isinstance(x.ctx, ast.Load) for b_ in st.body for x in ast.walk(b_)) \
+                        or (items is not None and {x.id for v in items for e in v for x in ast.walk(e) if isinstance(x, ast.Name)}
+                            & {x.id for b_ in st.body for x in ast.walk(b_) if isinstance(x, ast.Name) and not isinstance(x.ctx, ast.Load)}):
                     out.append(st)
                     continue
-                for vals in items:
+                # temporaries of one iteration (first touched by a plain top-level assignment of the body, never read outside the loop) get a
+                # name of their own per copy, so that the copies do not overwrite each other's values
+                stored = [t_.id for b_ in st.body if isinstance(b_, ast.Assign) for t_ in b_.targets if isinstance(t_, ast.Name)]
+                local_tmp = []
+                for nm_ in dict.fromkeys(stored):
+                    first = next((x for b_ in st.body for x in _in_order_names(b_) if x.id == nm_), None)
+                    outside = any(isinstance(x, ast.Name) and x.id == nm_ for o_ in blk if o_ is not st for x in ast.walk(o_)) or _read_elsewhere(tree, holder, st, nm_)
+                    if first is not None and isinstance(first.ctx, ast.Store) and not outside and nm_ not in names:
+                        local_tmp.append(nm_)
+                for k_, vals in enumerate(items):
                     mapping = dict(zip(names, vals))
+                    for nm_ in local_tmp:
+                        mapping[nm_] = ast.Name(id=f"{nm_}__it{k_}", ctx=ast.Load())
                     for b_ in copy.deepcopy(st.body):
                         new = _Subst(mapping).visit(b_)
                         ast.fix_missing_locations(new)
@@ -385,6 +486,7 @@ def unroll_literal_loops(tree, max_items=8, max_body=12):
 def inline_free_helpers(tree):
     """Inline the module's own free private helpers at statement-level call sites (in place); returns the number of sites."""
     total = 0
+    unroll_literal_loops(tree)      # a helper that loops over a literal (for k in ("a", "b"): if x == k: return k) becomes a chain of tests first
     for _round in range(MAX_ROUNDS):
         funcs, classes = {}, {}
         for st in tree.body:
@@ -456,4 +558,5 @@ def inline_free_helpers(tree):
         if n_round == 0:
             break
     unroll_literal_loops(tree)
+    merge_list_appends(tree)
     return total
